@@ -38,6 +38,7 @@ import sys
 import re
 import keyword
 import inspect
+import unicodedata
 import functools
 import itertools
 from inspect import formatannotation
@@ -880,7 +881,8 @@ class FunctionBuilder:
         # the def statement only needs a name that compiles and does not rebind
         # anything in execdict (__name__ is restored below): lambdas, functions
         # whose __name__ is no identifier ('get-item', 'test[1]', 'class')
-        name = re.sub(r'\W', '_', self.name)
+        name = ''.join([c if ('_' + c).isidentifier() else '_' for c in self.name])
+        name = unicodedata.normalize('NFKC', name)  # what the parser will store
         if not name.isidentifier() or keyword.iskeyword(name):
             name = '_' + name
         while name in execdict:
